@@ -941,7 +941,11 @@ def versions():
         for v in (major + '.0', major + '.1', major + '.4', major + '.10', major + '.99'):
             out.append((kw, v, ['ok']))
         for v in (other + '.0', '3.0', '0.9', '', 'x', major * 2, '9' + major + '.0', '-' + major + '.0', major + '0.0', '.'+ major,
-                  'v' + major + '.0', '\xe9.0', other + '\x7f0', '&#10;' + other + '.0&#10;X-Injected: yes', 'a' * 3000):
+                  'v' + major + '.0', '\xe9.0', other + '\x7f0', '&#10;' + other + '.0&#10;X-Injected: yes', 'a' * 3000,
+                  # every way a line break can be smuggled into text the listener echoes in CIMErrorDetails:
+                  # lone CR in the middle of a line, CR at both ends, CR LF, LF CR, tab + CR
+                  other + '.0&#13;X-Injected: cr', '&#13;' + other + '.0&#13;', other + '.0&#13;&#10;X-Injected: crlf',
+                  other + '.0&#10;&#13;X-Injected: lfcr', other + '.0&#9;&#13;X-Injected: tabcr'):
             out.append((kw, v, ['http:400|501:' + cat]))
         for v in (major, major + '.', major + '.x', ' ' + major + '.0', major + '.0.1', '0' + major + '.0', major + '.0 '):
             out.append((kw, v, ['ok', 'http:400|501:' + cat]))
